@@ -50,6 +50,7 @@ func (vc *VC) execCall(fr *Frame, st *State, instr ssa.Instruction, c *ssa.CallC
 		}
 		res := vc.callStatic(fr, st, callee, closure, args, c.Args, pos)
 		vc.setResults(fr, v, res)
+		vc.assumeAfter(fr, st, callee, args, res, pos)
 		return
 	}
 	// dynamic function value
@@ -94,6 +95,11 @@ func (vc *VC) callStatic(fr *Frame, st *State, callee *ssa.Function, closure *ss
 	}
 	// 2. contracted callee (never inlined)
 	if cc := vc.eng.contracts.lookupFn(callee); cc != nil && closure == nil && !(fr.top && callee == vc.root && false) {
+		return vc.contractCall(fr, st, callee, cc, args, pos)
+	}
+	// 2b. assumed contract on a dependency
+	if cc, ok := vc.eng.contracts.External[shortFuncName(callee)]; ok && vc.inSpec == 0 {
+		vc.assume("T3 assumed contract on dependency " + shortFuncName(callee))
 		return vc.contractCall(fr, st, callee, cc, args, pos)
 	}
 	// 3. module function with a body: inline
@@ -908,4 +914,47 @@ func sigTypes(sig *types.Signature, withRecv bool) []types.Type {
 		out = append(out, sig.Params().At(i).Type())
 	}
 	return out
+}
+
+
+// assumeAfter: input-domain assumptions ("assumeafter <callee> <expr>") taken right after a call;
+// ret0, ret1, ... name the call's results, arg0, ... its arguments. Every use is listed in the evidence.
+func (vc *VC) assumeAfter(fr *Frame, st *State, calleeFn *ssa.Function, args, res []string, pos token.Pos) {
+	if vc.inSpec > 0 || !fr.top || vc.fc == nil || vc.fc.AssumeAfter == nil {
+		return
+	}
+	name := shortFuncName(calleeFn)
+	exprs, ok := vc.fc.AssumeAfter[name]
+	if !ok {
+		return
+	}
+	nf := *fr
+	nf.specEnv = map[string]specVal{}
+	for k, v := range fr.specEnv {
+		nf.specEnv[k] = v
+	}
+	var ptypes []types.Type
+	if r := calleeFn.Signature.Recv(); r != nil {
+		ptypes = append(ptypes, r.Type())
+	}
+	for i := 0; i < calleeFn.Signature.Params().Len(); i++ {
+		ptypes = append(ptypes, calleeFn.Signature.Params().At(i).Type())
+	}
+	for i, a := range args {
+		if i < len(ptypes) {
+			nf.specEnv[fmt.Sprintf("arg%d", i)] = specVal{term: a, typ: ptypes[i]}
+		}
+	}
+	for i, r := range res {
+		nf.specEnv[fmt.Sprintf("ret%d", i)] = specVal{term: r, typ: calleeFn.Signature.Results().At(i).Type()}
+	}
+	for _, e := range exprs {
+		t, err := vc.specBoolAt(&nf, st, vc.entryFor(fr), e, fr.curBlock)
+		if err != nil {
+			vc.unsupportedf("assumeafter %s of %s: %v", name, vc.fc.Key, err)
+			continue
+		}
+		vc.fact(st.pc, t)
+		vc.assume("INPUT-DOMAIN (" + vc.fc.Key + ", after " + name + "): " + e)
+	}
 }
